@@ -81,6 +81,32 @@ CLAIMED["C11"] = dict(
          "by a vector instruction sequence is not decided.",
     technique="static analysis: interprocedural feature-availability dataflow + abstract interpretation (exact affine offsets, residue split) over rustc MIR")
 
+CLAIMED["C01"] = dict(
+    cat="other", ref="DESIGN.md §3 C01",
+    text="Decides structural necessary conditions of 'never anything but the original object', not the linear algebra: every Some(result) of "
+         "decode/get_result is cut to transfer_length() and is the index-order concatenation of the per-block results, returned only when "
+         "no block is missing; block decoders are created in block-number order with KL/KS sizes; the all-source fast path answers exactly "
+         "when the counter equals K, without the solver, copying symbol i to position i; the solver front-ends answer Some iff the solver "
+         "returned intermediate symbols and assemble position i from received-or-rebuilt symbol i.",
+    note="That the solver's solution is the unique solution of the received system, and the byte values of rebuilt symbols, are not decided.",
+    technique="static analysis: path-predicate (DNF) extraction, dominance / must-pass-through and loop-emission summaries over rustc MIR")
+CLAIMED["C02"] = dict(
+    cat="other", ref="DESIGN.md §3 C02",
+    text="Decides the control-flow clause: the block decoder answers only at four sites (too few symbols, all-source, successful GF(2)-only "
+         "attempt, full solve); a failed or skipped GF(2)-only attempt always continues to the full HDPC solve on the same K and ISI list with "
+         "the same sparse/dense threshold test; 'not yet' is answered iff fewer than K distinct ESIs were received.",
+    note="Rank detection inside the solver (first/second phase) is run-time linear algebra and is not decided.",
+    technique="static analysis: enumeration of return sites with their path predicates over rustc MIR")
+CLAIMED["C08"] = dict(
+    cat="other", ref="DESIGN.md §3 C08",
+    text="Decides the structural clauses of order/duplication independence: every mutation of decoder state in the accumulation loop is "
+         "guarded by received_esi.insert(own ESI) == true and classified by that same ESI; the source counter is incremented exactly where a "
+         "slot is filled and written nowhere else; per-block results are written only while None (memoisation is monotone) for the packet's own "
+         "block number; decode and add_new_packet perform the same guarded update and decode and get_result build the result identically; "
+         "Clone of both decoder types is derived.",
+    note="Independence of the solver's success from row order is mathematics, not code shape, and is not decided.",
+    technique="static analysis: control-dependence / guard rules and sibling-summary comparison over rustc MIR")
+
 NOT_APPLICABLE = {
     "C03": "probability over random erasure patterns; no clause of it is visible in the shape of the code",
     "C06": "invertibility of 477 concrete matrices and plan-replay equality are run-time linear algebra; no sound structural proxy",
